@@ -232,27 +232,68 @@ theorem valueKV_sig : (ks : List Node) → valueKV ks = sigValueKV (sigKV ks)
   | k :: ks => by rw [valueKV, sigKV, sigValueKV, valueOf_sig k, valueKV_sig ks]
 end
 
-/-- the value `Sequence.__imul__` re-feeds for a member, read off its `(value, u)` structure:
-    `member.value if member.value is not None or not member.u else member.u` -/
-def imulRaw (s : Sig) : Raw :=
-  match sigValue s with
-  | .none => if (sigU s).isEmpty then .none else .str (sigU s)
-  | v => v
+mutual
+/-- the value `Sequence.__imul__` re-feeds for a member (`_replica_value`), read off its
+    `(value, u)` structure: the value, with the text of every scalar that could not be adapted -/
+def imulRaw : Sig → Raw
+  | .sc v u => (match v with | .none => if u.isEmpty then .none else .str u | .int n => .int n | .str t => .str t)
+  | .seq xs => .list (imulRawL xs)
+  | .map kvs => .dict (imulRawKV kvs)
+def imulRawL : List Sig → List Raw
+  | [] => []
+  | x :: xs => imulRaw x :: imulRawL xs
+def imulRawKV : List (Str × Sig) → List (Str × Raw)
+  | [] => []
+  | (k, x) :: xs => (k, imulRaw x) :: imulRawKV xs
+end
 
-theorem imulValue_sig (x : Node) (hk : x.kind ≠ .multi ∧ x.kind ≠ .slot) : imulValue x = imulRaw (sig x) := by
-  unfold imulValue imulRaw
-  rw [valueOf_sig]
-  cases x with
-  | mk i s kids =>
-    have hk' : s.kind ≠ .multi ∧ s.kind ≠ .slot := hk
-    cases hkind : s.kind with
-    | integer => simp only [uOfMember, Node.kind, Node.sch, hkind, sig, sigU, Node.ni]; rfl
-    | string => simp only [uOfMember, Node.kind, Node.sch, hkind, sig, sigU, Node.ni]; rfl
-    | list => simp only [sig, hkind, sigValue]
-    | array => simp only [sig, hkind, sigValue]
-    | dict => simp only [sig, hkind, sigValue]
-    | sparse => simp only [sig, hkind, sigValue]
-    | multi => exact absurd hkind hk'.1
-    | slot => exact absurd hkind hk'.2
+mutual
+/-- no MultiValue anywhere inside the element: a MultiValue compares (and shows as `(value, u)`) by
+    its first member only, while `*=` replicates all its members — the one place where the
+    `(value, u)` abstraction is too coarse to say what `*=` re-feeds -/
+def noMulti : Node → Bool
+  | .mk _ s kids =>
+    match s.kind with
+    | .integer | .string => true
+    | .multi => false
+    | _ => noMultiL kids
+def noMultiL : List Node → Bool
+  | [] => true
+  | k :: ks => noMulti k && noMultiL ks
+end
+
+mutual
+theorem replicaValue_sig : (n : Node) → noMulti n = true → replicaValue n = imulRaw (sig n)
+  | .mk i s kids, h => by
+    rw [replicaValue, sig]
+    rw [noMulti] at h
+    cases hk : s.kind with
+    | integer => simp only [imulRaw]; cases i.val <;> rfl
+    | string => simp only [imulRaw]; cases i.val <;> rfl
+    | list => simp only [hk] at h; simp only [imulRaw, replicaL_sig kids h]
+    | array => simp only [hk] at h; simp only [imulRaw, replicaL_sig kids h]
+    | multi => simp [hk] at h
+    | dict => simp only [hk] at h; simp only [imulRaw, replicaKV_sig kids h]
+    | sparse => simp only [hk] at h; simp only [imulRaw, replicaKV_sig kids h]
+    | slot => simp only [hk] at h; exact replicaFirst_sig kids h
+theorem replicaFirst_sig : (ks : List Node) → noMultiL ks = true → replicaFirst ks = imulRaw (sigFirst ks)
+  | [], _ => rfl
+  | k :: _, h => by
+    rw [noMultiL, Bool.and_eq_true] at h
+    rw [replicaFirst, sigFirst]; exact replicaValue_sig k h.1
+theorem replicaL_sig : (ks : List Node) → noMultiL ks = true → replicaL ks = imulRawL (sigL ks)
+  | [], _ => rfl
+  | k :: ks, h => by
+    rw [noMultiL, Bool.and_eq_true] at h
+    rw [replicaL, sigL, imulRawL, replicaValue_sig k h.1, replicaL_sig ks h.2]
+theorem replicaKV_sig : (ks : List Node) → noMultiL ks = true → replicaKV ks = imulRawKV (sigKV ks)
+  | [], _ => rfl
+  | k :: ks, h => by
+    rw [noMultiL, Bool.and_eq_true] at h
+    rw [replicaKV, sigKV, imulRawKV, replicaValue_sig k h.1, replicaKV_sig ks h.2]
+end
+
+theorem imulValue_sig (x : Node) (h : noMulti x = true) : imulValue x = imulRaw (sig x) :=
+  replicaValue_sig x h
 
 end Flatland.Tree
